@@ -92,7 +92,7 @@ def main():
             na.append({"property_id": pid, "reason": "check not built yet (work in progress; the design in DESIGN.md section %s applies)" % ref})
     m = {
         "version": 1,
-        "setup_cmd": "/venv/bin/python -c 'import hypothesis' || /venv/bin/pip install --no-index --find-links /opt/veriftools/wheels hypothesis",
+        "setup_cmd": "(/venv/bin/python -c 'import hypothesis' || /venv/bin/pip install --no-index --find-links /opt/veriftools/wheels hypothesis) && (test -d /verif/.deps/atheris || /venv/bin/pip install -q --no-index --find-links /opt/veriftools/wheels --target /verif/.deps atheris)",
         "hooks": {
             "guard": "ADB_SHELL_VERIF",
             "enable": "no source hooks: checks import adb_shell from /repo's working tree and rebind module attributes (Lock, time, sys.modules['usb1']) from outside; the guard name is reserved and unused",
